@@ -55,7 +55,8 @@ def ledgerStep (r : Reg) (L : Ledger) : Op → Ledger
   | .start => L
 
 /-- what `malloc` guarantees: a new object's address is 8-aligned, differs from every live managed object's, and is not
-    NULL (GC_Sweep's finalisation loop and GC_Rem_Ptr's strike-off scan read a NULL word as "no object") -/
+    NULL (GC_Sweep's finalisation loop reads a NULL word as "no object" and GC_Rem_Ptr returns at once for NULL).  Removals
+    carry no condition: `del` of any pointer, NULL included, is admissible in every state. -/
 def okOp (L : Ledger) : Op → Prop
   | .new p _ _ => p ∉ L.map Prod.fst ∧ p % 8 = 0 ∧ p ≠ 0
   | .delRaw p => p ∉ L.map Prod.fst     -- `del_raw` is for objects allocated with `alloc_raw` / `new_raw`
@@ -68,7 +69,7 @@ inductive Reach (c : Cfg) : Reg → Ledger → Prop where
       Reach c r L → okOp L op → step c r op = some r' → Reach c r' (ledgerStep r L op)
 
 theorem wf_running (c : Cfg) (r : Reg) (L : Ledger) (h : WF c r L) (b : Bool) : WF c { r with running := b } L :=
-  ⟨h.core.of_slots rfl HEq.rfl, h.count, h.room, ⟨h.bounded.bounds, h.bounded.aligned, h.bounded.zero⟩, h.nodup, h.pend⟩
+  ⟨h.core.of_slots rfl HEq.rfl, h.count, h.room, ⟨h.bounded.bounds, h.bounded.aligned, h.bounded.zero, h.bounded.nonnull⟩, h.nodup, h.pend⟩
 
 /-- one operation from a well-formed state: the model does not get stuck, and the result is well formed for the new ledger -/
 theorem step_wf (c : Cfg) (g : GoodCfg c) (r : Reg) (L : Ledger) (hwf : WF c r L) (op : Op) (hok : okOp L op) :
@@ -77,7 +78,7 @@ theorem step_wf (c : Cfg) (g : GoodCfg c) (r : Reg) (L : Ledger) (hwf : WF c r L
   | new p root marks =>
     cases hrun : r.running with
     | true =>
-      obtain ⟨r', t, h1, h2, _⟩ := gcSet_wf c g r L hwf p root marks hrun hok.1 hok.2.1
+      obtain ⟨r', t, h1, h2, _⟩ := gcSet_wf c g r L hwf p root marks hrun hok.1 hok.2.1 hok.2.2
       refine ⟨r', by simp only [step, h1, Option.map], ?_⟩
       simp only [ledgerStep, hrun, if_true]
       exact h2
